@@ -83,10 +83,14 @@ def path_conditions(func_node: ast.AST, target: ast.AST) -> list[tuple[ast.AST, 
 				for s in block:
 					if s is cur:
 						break
-					if isinstance(s, ast.If) and not s.orelse and always_exits(s.body):
-						out.append((s.test, False))
-					elif isinstance(s, ast.If) and s.orelse and always_exits(s.orelse) and not always_exits(s.body):
-						out.append((s.test, True))
+					if isinstance(s, ast.If):
+						# if/elif chain: the tests of the leading arms whose bodies always exit are false afterwards
+						arm = s
+						while isinstance(arm, ast.If) and always_exits(arm.body):
+							out.append((arm.test, False))
+							arm = arm.orelse[0] if len(arm.orelse) == 1 and isinstance(arm.orelse[0], ast.If) else None
+						if isinstance(arm, ast.If) and arm is s and s.orelse and always_exits(s.orelse):
+							out.append((s.test, True))
 		if isinstance(par, (ast.FunctionDef, ast.AsyncFunctionDef, ast.Lambda)):
 			break
 		cur = par
@@ -257,3 +261,48 @@ def inlined_bodies(func: FuncInfo, depth: int = 2) -> list[ast.AST]:
 			out.append(gx)
 			work.append((g, gx, d + 1))
 	return out
+
+
+def reaching_def(fn_node: ast.AST, use: ast.Name) -> ast.AST | None:
+	"""the value of the latest plain assignment to use.id that textually precedes the use and whose block encloses it (a cheap reaching
+	definition for straight-line code; None when the name is a parameter, a loop target, or assigned only later)"""
+	pm = parent_map(fn_node)
+	anc = set()
+	cur: ast.AST = use
+	while id(cur) in pm:
+		cur = pm[id(cur)]
+		anc.add(id(cur))
+	best = None
+	for n in ast.walk(fn_node):
+		if not isinstance(n, (ast.Assign, ast.AnnAssign)) or getattr(n, 'value', None) is None:
+			continue
+		tgts = n.targets if isinstance(n, ast.Assign) else [n.target]
+		if not any(isinstance(t, ast.Name) and t.id == use.id for t in tgts):
+			continue
+		if (n.lineno, n.col_offset) >= (use.lineno, use.col_offset) or id(pm.get(id(n))) not in anc:
+			continue
+		if best is None or (n.lineno, n.col_offset) > (best.lineno, best.col_offset):
+			best = n
+	return best.value if best is not None else None
+
+
+def expand_use(fn_node: ast.AST, e: ast.AST, depth: int = 3) -> ast.AST:
+	"""copy of e (a node inside fn_node) with every local name replaced by its reaching definition (recursively)"""
+	import copy
+	if depth <= 0:
+		return e
+	if isinstance(e, ast.Name):
+		v = reaching_def(fn_node, e) if isinstance(e.ctx, ast.Load) else None
+		return expand_use(fn_node, v, depth - 1) if v is not None else e
+	dup = copy.deepcopy(e)
+	orig_of = {id(c): o for o, c in zip(ast.walk(e), ast.walk(dup))}
+
+	class T(ast.NodeTransformer):
+		def visit_Name(self, node: ast.Name):
+			o = orig_of.get(id(node))
+			if o is not None and isinstance(node.ctx, ast.Load):
+				v = reaching_def(fn_node, o)
+				if v is not None:
+					return expand_use(fn_node, v, depth - 1)
+			return node
+	return T().visit(dup)
